@@ -164,6 +164,48 @@ def read_sites(repo):
     return sorted(set(sites))
 
 
+def command_table(repo):
+    """which generic readers the four commands of the property (and their explicit-id variants) use for
+    snapshot and index files; each row is recognised in the body of the named function"""
+    bk = read(repo, "crates/core/src/commands/backup.rs")
+    pr = read(repo, "crates/core/src/commands/prune.rs")
+    ck = read(repo, "crates/core/src/commands/check.rs")
+    rp = read(repo, "crates/core/src/repository.rs")
+    def need(cond, what):
+        if not cond:
+            raise ExtractError("command table: " + what)
+    gp = " ".join(fnb(bk, "get_parent").split())
+    i_force, i_empty, i_latest, i_strs = gp.find("if self.force"), gp.find("else if self.parents.is_empty()"), gp.find("SnapshotFile::latest("), gp.find("SnapshotFile::from_strs(")
+    need(0 <= i_force < i_empty < i_latest < i_strs and "&self.parents" in gp[i_strs:i_strs + 120],
+         "ParentOptions::get_parent is no longer force / no parents -> SnapshotFile::latest / parents -> SnapshotFile::from_strs(&self.parents)")
+    need("GlobalIndex::only_full_trees(self.dbe()" in " ".join(fnb(rp, "to_indexed_ids").split()), "Repository::to_indexed_ids no longer reads the index with GlobalIndex::only_full_trees")
+    need("self.get_matching_snapshots(" in fnb(rp, "get_all_snapshots") and "self.update_matching_snapshots(" in fnb(rp, "get_matching_snapshots")
+         and "SnapshotFile::update_from_backend(self.dbe()" in fnb(rp, "update_matching_snapshots"), "Repository::get_all_snapshots no longer ends in SnapshotFile::update_from_backend")
+    need("self.update_snapshots(" in fnb(rp, "get_snapshots") and "SnapshotFile::update_from_ids(self.dbe()" in fnb(rp, "update_snapshots"),
+         "Repository::get_snapshots no longer ends in SnapshotFile::update_from_ids")
+    need("self.dbe().delete_list(true, ids.iter()" in " ".join(fnb(rp, "delete_snapshots").split()), "Repository::delete_snapshots no longer removes with the cacheable flag")
+    fu = " ".join(fnb(pr, "find_used_blobs").split())
+    a, b = fu.find(".list(FileType::Snapshot)?"), fu.find(".stream_list::<SnapshotFile>(list")
+    need(0 <= a < b, "prune::find_used_blobs no longer lists the snapshots before streaming them")
+    need("be.stream_all::<IndexFile>(" in fnb(pr, "from_prune_options") or "stream_all::<IndexFile>(" in pr, "prune no longer reads the index with stream_all")
+    need(".get_all_snapshots()?" in fnb(rp, "check"), "Repository::check no longer takes the trees from get_all_snapshots")
+    need("be.stream_all::<IndexFile>(" in fnb(ck, "check_packs"), "check_packs no longer reads the index with stream_all")
+    cr = " ".join(fnb(ck, "check_repository").split())
+    a, b = cr.find("raw_be.list_with_size(FileType::Snapshot)?"), cr.find("raw_be.read_full(file_type, &id)")
+    need(a < 0 or a < b, "check_repository: snapshot hash test reads before listing")
+    return [
+        ("CmdBackup", [("IndexOnlyFullTrees", "Index"), ("SnapLatest", "Snapshot")], "backup, parent = latest snapshot of the group"),
+        ("CmdBackupParentPrefix", [("IndexOnlyFullTrees", "Index"), ("SnapFromStrsPrefix", "Snapshot")], "backup, explicit parents, some id prefix"),
+        ("CmdBackupParentLatest", [("IndexOnlyFullTrees", "Index"), ("SnapFromStrsLatest", "Snapshot")], "backup, explicit parents, some latest[~N]"),
+        ("CmdBackupParentFullIds", [("IndexOnlyFullTrees", "Index"), ("SnapFromStrsIdsOnly", "Snapshot")], "backup, explicit parents, full ids only"),
+        ("CmdForgetAll", [("SnapUpdateFromBackend", "Snapshot")], "forget: get_all_snapshots, keep rules, delete_snapshots"),
+        ("CmdForgetPrefix", [("SnapUpdateFromIdsPrefix", "Snapshot")], "forget of snapshots named by id prefix: get_snapshots, delete_snapshots"),
+        ("CmdForgetFullIds", [("SnapUpdateFromIdsFull", "Snapshot")], "forget of snapshots named by full id"),
+        ("CmdPrune", [("StreamAll", "Index"), ("StreamAll", "Snapshot")], "prune: index by stream_all, snapshots by list + stream_list (find_used_blobs)"),
+        ("CmdCheck", [("SnapUpdateFromBackend", "Snapshot"), ("StreamAll", "Snapshot"), ("StreamAll", "Index")], "check: get_all_snapshots, snapshot hash test (list_with_size + read_full), check_packs"),
+    ]
+
+
 def reader_table(repo):
     dec = read(repo, "crates/core/src/backend/decrypt.rs")
     be = read(repo, "crates/core/src/backend.rs")
@@ -409,10 +451,14 @@ def gen(repo):
                "".join("  | %s => %s\n" % (nme, "true" if evs[:1] == "L" else "false") for nme, evs, _ in rows) + "  end.")
     out.append("Definition rdr_reads (r : rdr) : bool :=\n  match r with\n" +
                "".join("  | %s => %s\n" % (nme, "true" if "R" in evs else "false") for nme, evs, _ in rows) + "  end.")
+    cmds = command_table(repo)
+    out.append("(* the generic readers each command uses for snapshot and index files (recognised in the command bodies) *)")
+    out.append("Definition cmd_readers (c : cmd) : list (rdr * ftype) :=\n  match c with\n" +
+               "".join("  | %s => [%s]  (* %s *)\n" % (n, "; ".join("(%s, %s)" % rt for rt in rows_), w) for n, rows_, w in cmds) + "  end.")
     out.append("(* an id-only listing (ReadBackend::list) through DecryptBackend -> Arc<dyn WriteBackend> -> CachedBackend")
     out.append("   ends in CachedBackend::list_with_size, i.e. runs the cache clean-up *)")
     out.append("Definition list_reaches_cleanup : bool := %s." % ("true" if reaches else "false"))
-    meta = {"unlisted_reader_call_sites": sites, "readers": {nme: evs for nme, evs, _ in rows}, "list_reaches_cleanup": reaches, "lists_strays": not canonical_only, "file_type_cacheable": ft, "blob_type_cacheable": bt, "guards": {k: v[1] for k, v in guards.items()},
+    meta = {"command_readers": {n: ["%s/%s" % rt for rt in rows_] for n, rows_, _ in cmds}, "unlisted_reader_call_sites": sites, "readers": {nme: evs for nme, evs, _ in rows}, "list_reaches_cleanup": reaches, "lists_strays": not canonical_only, "file_type_cacheable": ft, "blob_type_cacheable": bt, "guards": {k: v[1] for k, v in guards.items()},
             "early_exit": early_exit, "dirnames": names}
     return "\n".join(out) + "\n", meta
 
